@@ -76,6 +76,12 @@ def units(tier):
                 sp = dict(spec)
                 sp["oidlen"] = ol
                 us.append({"name": f"oid{ol}_{name}", "shape": {"kind": "sent", "spec": sp}})
+    k = 0
+    for u in us:
+        if u["shape"]["kind"] == "sent":
+            k += 1
+            if k % 5 == 0:
+                u["shape"]["again"] = True
     tot = [s for s in specs if s[0] in ("oc_full", "at_full", "dcr_full", "oc_min", "at_syntax_quoted", "oc_ext_empty")] if tier == "quick" else specs
     for name, spec in tot:
         n = len(_concrete_sentence(spec))
@@ -135,6 +141,25 @@ def body(ctx, shape):
 
         for f in dataclasses.fields(expected):
             ctx.require(ctx.eq(getattr(got, f.name), getattr(expected, f.name)), "field-differs-from-grammar:" + f.name)
+        if shape.get("again"):
+            # hidden state: scribble over the first result, parse other (valid and rejected) text,
+            # then the same sentence must denote the same definition again
+            for v in vars(got).values():
+                if isinstance(v, list):
+                    v.append("scribble")
+                elif isinstance(v, dict):
+                    v["scribble"] = ["x"]
+            for other in ("( 9.9 NAME ( 'zz' 'yy' ) DESC 'other' OBSOLETE X-q ( 'r' 's' ) )", "( 9.9 DESC 'x )", ""):
+                try:
+                    C.from_string(other)
+                except ValueError:
+                    pass
+            try:
+                got2 = C.from_string(text)
+            except Exception as e:  # noqa: BLE001
+                ctx.fail("second-parse-of-the-same-sentence-rejected", f"{type(e).__name__}@{exc_site(e)}")
+            for f in dataclasses.fields(expected):
+                ctx.require(ctx.eq(getattr(got2, f.name), getattr(expected, f.name)), "second-parse-differs-from-grammar:" + f.name)
         return
     sent = _sentence(ctx, spec)
     off = shape["off"]
